@@ -74,7 +74,7 @@ def run(ctx):
             shard("tam33", ["r3"], [33], ["r2"], both, tlens=[33], masks=[1, 128, 255], workers=4),
             shard("tamsx", ["r1"], [33], ["shortx", "shorty"], ["rand"], tlens=[33], masks=[128], workers=3),
             shard("chain", ["r1", "nm2"], [1, 32, 33, 65], ["r1", "shortx", "shorty"], both, chain=3, workers=4),
-            shard("refine", ["std"], [1, 2, 33], ["r1", "zt"], both, neg=True, tlens=[1, 2], masks=[128], chain=2, refine=True, workers=4),
+            shard("refine", ["std"], [1, 2, 33], ["r1", "zt"], both, neg=True, tlens=[1], masks=[128], chain=1, refine=True, workers=4),
         ]
     jobs, outs = [], []
     for s in sh:
@@ -84,9 +84,9 @@ def run(ctx):
                          constants=dict(s["consts"], Seed=ctx.seed, OutFile=core.tla_str(o)),
                          invariants=("TypeOK", "ScenarioOK", "ChainCanon", "RoundTrip")))
     oleg = os.path.join(ctx.scratch, "c07-legacy.ndjson")
-    jobs.append(dict(module="MC_C07leg", name="MC_C07leg", view="View", workers=2, timeout=900, heap="2g",
+    jobs.append(dict(module="MC_C07leg", name="MC_C07leg", view="View", workers=2 if quick else 4, timeout=1800, heap="2g",
                      constants=dict(Seed=ctx.seed, OutFile=core.tla_str(oleg),
-                                    MLens=S([1, 2, 32, 33, 65] if quick else [1, 2, 31, 32, 33, 64, 65, 97, 129, 257]),
+                                    MLens=S([1, 2, 32, 33, 65] if quick else [1, 2, 32, 33, 65, 257]),
                                     Cuts=S([0, 1, 33, 64, 65, 66, 70, 96, 97, 98] if quick else list(range(0, 131))),
                                     Flips=S([1, 2, 33, 34, 66, 67, 90, 98, 99] if quick else list(range(1, 131)))),
                      invariants=("TypeOK",)))
